@@ -85,10 +85,34 @@ pub fn families(out_path: &str) -> Value {
     json!({"runs": 1, "steps": n_inc + n_seal, "events": events, "inc": n_inc, "sealat": n_seal})
 }
 
+thread_local! {
+    /// last counter value (low 7 bytes of the nonce) per (end, key) of the current connection
+    static LAST: std::cell::RefCell<std::collections::HashMap<(String, String), u64>> = Default::default();
+}
+
+fn low56(n: &[u8; 12]) -> u64 {
+    let mut v = 0u64;
+    for b in &n[5..] {
+        v = (v << 8) | *b as u64;
+    }
+    v
+}
+
 fn drain_log(end: &str, t: &mut Trace, n: &mut u64) {
     for (fp, nonce) in verif_seal_log_take() {
         *n += 1;
-        t.ev(json!({"op":"seal","end":end,"key":hex(&fp),"nonce":arr(&nonce)}));
+        let key = hex(&fp);
+        // "a rotated-in key starts a fresh sequence": the first counter of a key must not continue (lie within 2^24 of)
+        // any counter this end used under another key of the connection
+        let v = low56(&nonce);
+        let fresh = LAST.with(|l| {
+            let mut l = l.borrow_mut();
+            let first = !l.contains_key(&(end.to_string(), key.clone()));
+            let near = first && l.iter().any(|((e, k), last)| e == end && *k != key && (v as i128 - *last as i128).abs() < (1 << 24));
+            l.insert((end.to_string(), key.clone()), v);
+            !near
+        });
+        t.ev(json!({"op":"seal","end":end,"key":key,"nonce":arr(&nonce),"fresh":fresh}));
     }
 }
 
@@ -103,6 +127,7 @@ pub fn life(conns: u64, seconds: u64, out_path: &str) -> Value {
         let crypto = [pw_crypto(1, "pw"), pw_crypto(2, "pw")];
         let mode = ["A", "B", "both"][(c % 3) as usize];
         t.ev(json!({"op":"reset","run":c + 1,"mode":mode}));
+        LAST.with(|l| l.borrow_mut().clear());
         verif_seal_log_start();
         let names = ["A", "B"];
         let hs = {
